@@ -85,6 +85,15 @@ def rule_r1_r5(facts, rep):
         """closure parameter id if `node` lies in a closure that iterates over the affected set (for_each / map on it), else None"""
         ps_ = c.parents(node)
         for i_, p_ in enumerate(ps_):
+            # `for k in affected.iter() { .. }`
+            if p_.get("k") == "match" and p_.get("src") == "ForLoopDesugar" and any(
+                    y.get("k") == "path" and y.get("res") == "local" and y.get("id") in aff_ids for y in fb.walk(p_.get("e") or {})):
+                for y in fb.walk(p_):
+                    if y.get("k") == "match" and y is not p_:
+                        for arm in y.get("arms", []):
+                            if any(fb.last_seg(v) == "Some" for v in fb.pat_variants(arm["pat"])):
+                                pids = [lid for _n, lid in fb.pat_bindings(arm["pat"])]
+                                return pids[0] if pids else -1
             if p_.get("k") == "closure":
                 for pp in ps_[i_ + 1:i_ + 3]:
                     if pp.get("k") == "mcall" and pp["name"] in ("for_each", "map", "flat_map", "filter_map") and p_ in pp.get("args", []):
